@@ -6,6 +6,7 @@ import InToto.Properties.C10
 #print axioms InToto.C10.artifact_map_order
 #print axioms InToto.C10.clean_up_survivor
 #print axioms InToto.C10.match_rule_map_order
+#print axioms InToto.C10.rule_verification_leaves_links_untouched
 #print axioms InToto.C10.parameter_order
 #print axioms InToto.C10.constraint_value_order
 #print axioms InToto.C10.history_pointwise
